@@ -9,6 +9,8 @@ import (
 	"io"
 	"net/http"
 	"net/http/httptest"
+	"regexp"
+	"runtime"
 	"testing"
 
 	"github.com/getkin/kin-openapi/openapi3filter"
@@ -68,6 +70,8 @@ func options(c Case) *openapi3filter.Options {
 	return o
 }
 
+var reBigIndex = regexp.MustCompile(`(\[|%5B)\d{5,}(\]|%5D)`)
+
 func check(c Case) (o h.Outcome) {
 	doc, err := kinx.LoadBytes(c.Doc)
 	if err != nil {
@@ -122,7 +126,24 @@ func check(c Case) (o h.Outcome) {
 		o.Class("route:found")
 		in := &openapi3filter.RequestValidationInput{Request: req, PathParams: pathParams, Route: route, Options: opts}
 		var verr error
+		var m0, m1 runtime.MemStats
+		runtime.ReadMemStats(&m0)
 		if !o.Guarded("ValidateRequest", func() { verr = openapi3filter.ValidateRequest(context.Background(), in) }) {
+			return
+		}
+		runtime.ReadMemStats(&m1)
+		// "never a hang": the work done for a request has to be bounded by the request, not by a number
+		// written in it. Allocation is the deterministic measure of that work. The bound is deliberately
+		// far above anything polynomial in the request at the generated sizes (64 MiB plus 64 KiB per
+		// byte of request: nested error dumps are quadratic in the nesting depth and stay below it), so
+		// only work that is independent of the request size trips it.
+		reqSize := uint64(len(c.Req.Path) + len(c.Req.Query) + len(c.Req.Body) + 1024)
+		if alloc := m1.TotalAlloc - m0.TotalAlloc; alloc > 64<<20+(64<<10)*reqSize {
+			cause := "other"
+			if reBigIndex.MatchString(c.Req.Query) {
+				cause = "deepObject-index"
+			}
+			o.Fail("amplification:ValidateRequest:"+cause, "validating a request of about %d bytes allocated %d MiB: the work depends on a number inside the request, so a slightly larger number hangs or exhausts memory\nquery=%q", reqSize-1024, alloc>>20, c.Req.Query)
 			return
 		}
 		if verr == nil {
